@@ -75,13 +75,18 @@ public:
 
     template <typename D, bool TR>
     virtual_2d_locator(virtual_2d_locator<D, TR> const &loc, coord_t y_step)
-        : y_pos_(loc.pos(), point_t(loc.step().x, loc.step().y * y_step), loc.deref_fn())
+        : y_pos_(loc.pos()
+        // the step is kept in the coordinates of the deref function: a transposed locator moves along its x to go down
+        , IsTransposed ?
+            point_t(loc.step().x * y_step, loc.step().y) :
+            point_t(loc.step().x, loc.step().y * y_step)
+        , loc.deref_fn())
     {}
 
     template <typename D, bool TR>
     virtual_2d_locator(virtual_2d_locator<D, TR> const& loc, coord_t x_step, coord_t y_step, bool transpose = false)
         : y_pos_(loc.pos()
-        , transpose ?
+        , IsTransposed ?
             point_t(loc.step().x * y_step, loc.step().y * x_step) :
             point_t(loc.step().x * x_step, loc.step().y * y_step)
         , loc.deref_fn())
